@@ -312,6 +312,9 @@ def run(ctx):
 
                 case["hist"] = gen_sparse_history(r)
                 ctx.feat("feature:sparse-survivors")
+        if mode == "history" and i % 2:
+            case["fnconst"] = r.randint(2, 14)
+            ctx.feat("feature:history-beside-function-constant")
         if mode == "attr-rich":
             case["plant"] = c02.gen_plant(r, 4)
             if r.random() < 0.5:
